@@ -664,6 +664,11 @@ func hasDepthGuard(p *Program, comp []*ssa.Function) (bool, string) {
 			}
 		}
 	}
+	cg := p.CallGraph()
+	// the guarded call sites: behind a test of an incremented counter against a
+	// constant whose other side returns without calling back into the component
+	passOf := map[*ssa.Function][]*ssa.BasicBlock{}
+	var guardFns []string
 	for _, f := range comp {
 		for _, b := range f.Blocks {
 			iff, ok := terminator(b).(*ssa.If)
@@ -674,41 +679,156 @@ func hasDepthGuard(p *Program, comp []*ssa.Function) (bool, string) {
 			if !ok || (bo.Op != token.GTR && bo.Op != token.GEQ && bo.Op != token.LSS && bo.Op != token.LEQ) {
 				continue
 			}
-			isCounter := func(v ssa.Value) bool {
+			counterOf := func(v ssa.Value) string {
 				for _, o := range origins(v) {
 					if u, ok := o.(*ssa.UnOp); ok && u.Op == token.MUL && counters[fieldKey(u.X)] {
-						return true
+						return fieldKey(u.X)
 					}
 					if bo2, ok := o.(*ssa.BinOp); ok {
 						if u, ok := bo2.X.(*ssa.UnOp); ok && counters[fieldKey(u.X)] {
-							return true
+							return fieldKey(u.X)
 						}
 					}
 				}
-				return false
+				return ""
 			}
 			_, cy := bo.Y.(*ssa.Const)
 			_, cx := bo.X.(*ssa.Const)
-			if !((isCounter(bo.X) && cy) || (isCounter(bo.Y) && cx)) {
+			ck := ""
+			if cy {
+				ck = counterOf(bo.X)
+			} else if cx {
+				ck = counterOf(bo.Y)
+			}
+			if ck == "" {
 				continue
 			}
-			// one successor returns without recursing
-			for _, s := range b.Succs {
-				if _, ok := terminator(s).(*ssa.Return); ok {
-					rec := false
-					for _, ins := range s.Instrs {
-						if cc := callOf(ins); cc != nil && cc.StaticCallee() != nil && in[cc.StaticCallee()] {
-							rec = true
+			// the counter is incremented in this function before the test
+			incBefore := false
+			for _, b2 := range f.Blocks {
+				for _, ins := range b2.Instrs {
+					if st, ok := ins.(*ssa.Store); ok && fieldKey(st.Addr) == ck {
+						if bo3, ok := st.Val.(*ssa.BinOp); ok && bo3.Op == token.ADD && (b2 == b || b2.Dominates(b)) {
+							incBefore = true
 						}
-					}
-					if !rec {
-						return true, p.FnName(f) + " bounds a depth counter at " + p.Pos(iff.Pos())
 					}
 				}
 			}
+			if !incBefore {
+				continue
+			}
+			// one successor returns without recursing: the other is the pass side
+			for si, sc := range b.Succs {
+				if _, ok := terminator(sc).(*ssa.Return); !ok {
+					continue
+				}
+				rec := false
+				for _, ins := range sc.Instrs {
+					if cc := callOf(ins); cc != nil && (cc.StaticCallee() == nil || in[cc.StaticCallee()]) {
+						rec = true
+					}
+				}
+				if !rec && len(b.Succs[1-si].Preds) == 1 {
+					passOf[f] = append(passOf[f], b.Succs[1-si])
+				}
+			}
+		}
+		if len(passOf[f]) > 0 {
+			guardFns = append(guardFns, p.FnName(f))
 		}
 	}
-	return false, ""
+	if len(passOf) == 0 {
+		return false, ""
+	}
+	guarded := func(f *ssa.Function, site ssa.CallInstruction) bool {
+		if site == nil {
+			return false
+		}
+		for _, pb := range passOf[f] {
+			if pb == site.Block() || pb.Dominates(site.Block()) {
+				return true
+			}
+		}
+		return false
+	}
+	// without the guarded calls the component has no cycle left: every cycle
+	// takes a call that the counter limits
+	lib := map[*ssa.Function]bool{}
+	for _, fn := range p.LibFns {
+		lib[fn] = true
+	}
+	// callees of x inside the component, with the call site in x; calls that
+	// go through wrappers or the standard library are followed to where they
+	// come back into the library
+	type compEdge struct {
+		to   *ssa.Function
+		site ssa.CallInstruction
+	}
+	edgesOf := func(x *ssa.Function) []compEdge {
+		var out []compEdge
+		nd := cg.Nodes[x]
+		if nd == nil {
+			return nil
+		}
+		for _, e := range nd.Out {
+			c := e.Callee.Func
+			if lib[c] {
+				if in[c] {
+					out = append(out, compEdge{c, e.Site})
+				}
+				continue
+			}
+			seen := map[*callgraph.Node]bool{}
+			var expand func(n *callgraph.Node, d int)
+			expand = func(n *callgraph.Node, d int) {
+				if seen[n] || d > 6 {
+					return
+				}
+				seen[n] = true
+				for _, e2 := range n.Out {
+					c2 := e2.Callee.Func
+					if lib[c2] {
+						if in[c2] {
+							out = append(out, compEdge{c2, e.Site})
+						}
+					} else {
+						expand(e2.Callee, d+1)
+					}
+				}
+			}
+			expand(e.Callee, 0)
+		}
+		return out
+	}
+	acyclic := true
+	color := map[*ssa.Function]int{}
+	var dfs func(x *ssa.Function)
+	dfs = func(x *ssa.Function) {
+		color[x] = 1
+		for _, e := range edgesOf(x) {
+			c := e.to
+			if guarded(x, e.site) {
+				continue
+			}
+			switch color[c] {
+			case 0:
+				dfs(c)
+			case 1:
+				acyclic = false
+			}
+		}
+		color[x] = 2
+	}
+	for _, x := range comp {
+		if color[x] == 0 {
+			dfs(x)
+		}
+	}
+	if !acyclic {
+		return false, ""
+	}
+	sort.Strings(guardFns)
+	return true, strings.Join(guardFns, ", ") + " count the depth and stop at a bound: every cycle of the component takes a call that lies behind such a test"
 }
 
 // hasDepthParam: the recursion carries its depth as an int parameter.  Edges of
